@@ -31,7 +31,7 @@ MIN = {"quick": {"records_compared": 15000, "own_reader_records": 5000, "e2e_run
        "thorough": {"records_compared": 600000, "own_reader_records": 200000, "e2e_runs": 800}}
 
 FEATURES = ["plain", "plain", "serial-big", "resseq-big", "resseq-4col", "coord-big", "icode", "digit-chain",
-            "name4", "resn4", "hetatm", "blank-chain", "neg-coords", "punct-names"]
+            "name4", "resn4", "hetatm", "blank-chain", "neg-coords", "punct-names", "altloc-flag"]
 
 
 def cases(tier, seed):
@@ -91,6 +91,12 @@ def gen_atom(rng, feature):
         a.res_name = rng.choice(["NALA", "CHIP", "CASH", "NPRO"])
     elif feature == "blank-chain":
         a.chain_id = ""
+    elif feature == "altloc-flag":
+        # the model atom still carries an alternate-location flag (lone flags, nucleic / ligand conformers); the PQR
+        # layout has no such column
+        a.alt_loc = rng.choice(["A", "B", "1", "X"])
+        if rng.random() < 0.5:
+            a.res_name = rng.choice(["SER", "DA", "U", "LIG", "HOH"])
     elif feature == "punct-names":
         # residue / atom names of the shipped force fields and naming schemes that carry +, -, _ (TY-, CY-, HI+, Na+)
         a.res_name = rng.choice(["TY-", "CY-", "HI+", "BK+", "BK-", "PR+", "PR-", "N-M", "MP_0", "Na+", "Cl-"])
@@ -281,6 +287,11 @@ def run_e2e(spec, res):
     rng = random.Random(spec["seed"] + 5)
     mutate_numbering(m["items"], spec["mut"], rng)
     text = pdbfmt.to_text(m["items"])
+    if spec["seed"] % 4 == 1:
+        # alternate locations (paired and lone flags) on protein, nucleic and water atoms
+        from ..gen import pdbtext
+        text, _info = pdbtext.apply(m["items"], [rng.choice(["altloc_interleaved", "altloc_blocked"])], rng)
+        res.count("e2e_altloc_inputs")
     r = pipeline.run(text, spec["opts"], workname="c08")
     if not r.ok:
         res.count("e2e_failed")
